@@ -483,6 +483,29 @@ func (e *evaluator) inlineable(g *Func) bool {
 			return true
 		}
 	}
+	// a one-line computed property of a record (a method of a module struct in package types returning an arithmetic
+	// or field expression): the call is that expression over the record
+	if n == 1 && len(g.Res) == 1 && len(ret.Results) == 1 && g.Recv != nil && g.pkgName() == "types" && namedStruct(g.Recv.Type()) != "" && !isErrorType(g.Res[0].Type()) {
+		if b, isBasic := g.Res[0].Type().Underlying().(*types.Basic); !(isBasic && b.Kind() == types.Bool) {
+			switch ast.Unparen(ret.Results[0]).(type) {
+			case *ast.BinaryExpr, *ast.SelectorExpr:
+				return true
+			}
+		}
+	}
+	// unexported straight-line helpers with several results, none of them an error ("the minimum and whether the
+	// deposit falls short of it"): each result is its expression over the arguments
+	if len(g.Res) >= 2 && len(ret.Results) == len(g.Res) && g.Obj != nil && !g.Obj.Exported() && g.pkgName() == "keeper" {
+		pure := true
+		for _, r := range g.Res {
+			if isErrorType(r.Type()) {
+				pure = false
+			}
+		}
+		if pure {
+			return true
+		}
+	}
 	// unexported one-line factories of function values ("return func(...) {...}" over the parameters): the call is
 	// the literal together with the arguments it captured
 	if n == 1 && len(g.Res) == 1 && len(ret.Results) == 1 && g.Obj != nil && !g.Obj.Exported() && (g.pkgName() == "keeper" || g.pkgName() == "types" || g.pkgName() == "service") {
